@@ -531,7 +531,7 @@ UNITS = {
     "C10": [_lazy_list("contracts.cli", "units", "C10", k) for k in range(6)] + [_lazy("contracts.purity", "unit_purity", "C10"), _lazy("contracts.accessors", "unit_dataset", "C10")],
     "C19": [_scales("C19"), _lazy("contracts.accessors", "unit_ctors", "C19")],
     "C02": [unit_stft_frame("C02"), unit_stft_geometry("C02"), _lazy("contracts.stft_frame", "unit_base_computer", "C02"), _lazy("contracts.stft_frame", "unit_nonlin", "C02"), unit_stft("C02", "full"), unit_tri("C02", "init"), unit_tri("C02", "truncated"), unit_fbank("C02", "init"), unit_fbank("C02", "truncated"), _lazy("contracts.accessors", "unit_accessors", "C02")],
-    "C01": [unit_stft("C01", "finalize"), unit_stft("C01", "chunk"), unit_fbf("C01")] + [unit_si("C01", w) for w in ("chunk", "handle_skip", "finalize", "full")] + [unit_si_frame("C01", w) for w in ("fill", "frame", "dft")],
+    "C01": [unit_stft("C01", "finalize"), unit_stft("C01", "chunk"), unit_fbf("C01"), _lazy("contracts.accessors", "unit_base_full", "C01")] + [unit_si("C01", w) for w in ("chunk", "handle_skip", "finalize", "full")] + [unit_si_frame("C01", w) for w in ("fill", "frame", "dft")],
     "C04": [unit_stft("C04", "finalize"), unit_stft("C04", "chunk"), unit_stft("C04", "full"), unit_fbf("C04"), unit_stft_fresh("C04")] +
            [unit_si("C04", w) for w in ("preamble", "finalize", "full", "chunk")] + [_lazy("contracts.accessors", "unit_accessors", "C04")],
 }
